@@ -40,6 +40,8 @@ def handler_classes(h: ast.ExceptHandler) -> Set[str]:
 
 
 def run(ctx: Ctx) -> None:
+    if getattr(ctx, "_depth", 0) >= 2:
+        return  # alias of an alias: not followed (breaks import cycles between rule modules)
     repo = ctx.repo
     ctx.rule("C08.R1", "push: after appending, the sender waits on _paused when len(buffer) >= BUFFER_HIGH_WATER (a positive module constant), then clears it; pushes after completion raise", floor=4)
     ctx.rule("C08.R2", "a paused sender is released (outside close()) only when the data REMAINING in the buffer is below the low-water mark", floor=1)
@@ -256,11 +258,11 @@ def run(ctx: Ctx) -> None:
         shared = [st for st in cls_.body if isinstance(st, (ast.Assign, ast.AnnAssign)) and dotted(st.targets[0] if isinstance(st, ast.Assign) else st.target) == "send_lock" and getattr(st, "value", None) is not None]
         shared += [st for st in repo.module(mod_).tree.body if isinstance(st, ast.Assign) and isinstance(st.value, ast.Call) and call_name(st.value) == lock_ctor]
         ctx.check("C08.R11", f"{mod_}:TCPServer", f"self.send_lock = {lock_ctor}() in __init__, no class/module level lock", len(per_inst) == 1 and not shared, "the send lock is shared between connections: a write waiting on one stalled client holds the lock, so no other connection of the worker can send", shared[0] if shared else ini_)
-    c09.run(Alias(ctx, "C08.R9", "pressure abates => the waiting send is released: WINDOW_UPDATE (stream-level, connection-level stream 0, SETTINGS) and RST_STREAM reach unblock + wake-up, and the send task re-consults the tree (same analysis as C09.R3/R4/R6)", only={"C09.R3", "C09.R4", "C09.R6"}))
+    c09.run(Alias(ctx, "C08.R9", "pressure abates => the waiting send is released: WINDOW_UPDATE (stream-level, connection-level stream 0, SETTINGS) and RST_STREAM reach unblock + wake-up, and the send task re-consults the tree (same analysis as C09.R3/R4/R6); the send task parks a stream only on an empty pop, so a waiting push is always released by the short / empty pop that follows (C09.R2)", only={"C09.R2", "C09.R3", "C09.R4", "C09.R6"}))
 
     from . import c17
 
-    c17.run(Alias(ctx, "C08.R10", "WSGI applications run in a thread: their sends go through a bridge that waits for the event-loop send to complete, so backpressure reaches the application thread (C17.R2)", only={"C17.R2"}))
+    c17.run(Alias(ctx, "C08.R10", "WSGI applications run in a thread: their sends go through a bridge that waits for the event-loop send to complete, so backpressure reaches the application thread (C17.R2); chunks are forwarded one at a time as the iterable yields them - the adapter never drains the iterable ahead of the client (C17.R4)", only={"C17.R2", "C17.R4"}))
 
     ctx.assume("not decided: the numeric bound itself, fairness between streams, promptness of release; asyncio StreamWriter.drain / trio send_all semantics are trusted")
     ctx.assume("invariant used (exempt site): a stream unblocked in the priority tree always has an entry in stream_buffers, so the lookup inside _send_data's handler cannot raise")
